@@ -143,7 +143,7 @@ func (u *c03user) report(w *wctx, r *refchess.Pos, prefix string, diffs []string
 		return
 	}
 	if clampNow {
-		u.clampSeen = true
+		w.clampSeen = true
 	}
 	phaseDiff := false
 	for _, d := range diffs {
@@ -152,7 +152,7 @@ func (u *c03user) report(w *wctx, r *refchess.Pos, prefix string, diffs []string
 		}
 	}
 	for _, d := range diffs {
-		if (d == "gamephase" || (d == "evaluation" && phaseDiff)) && (clampNow || u.clampSeen) {
+		if (d == "gamephase" || (d == "evaluation" && phaseDiff)) && (clampNow || w.clampSeen) {
 			w.run.Violate(keyClamp, whatClamp, w.replayOf(r, extra))
 			continue
 		}
@@ -163,7 +163,6 @@ func (u *c03user) report(w *wctx, r *refchess.Pos, prefix string, diffs []string
 type c03user struct {
 	ev        *evaluator.Evaluator
 	stack     []snap
-	clampSeen bool // a clamp event happened on this live position: its phase may have drifted
 }
 
 // c03Pre: snapshot; one-level excursion over every pseudo-legal move and over the null move
@@ -171,9 +170,6 @@ type c03user struct {
 func c03Pre(w *wctx, p *position.Position, r *refchess.Pos) {
 	u := w.user.(*c03user)
 	run := w.run
-	if w.seed == "" {
-		u.clampSeen = false // fresh position per state in the k-man families
-	}
 	s0 := takeSnap(p, u.ev)
 	u.stack = append(u.stack, s0)
 	pseudo := append([]Move{}, (*w.mg.GeneratePseudoLegalMoves(p, movegen.GenAll, false))...)
